@@ -79,10 +79,10 @@ BOUNDS = {
              "symbolic data and mapper values; 20 ops, 16 observations).  Part C: poisson/gaussian helpers of dataset.preprocess and "
              "SimulatorImaging.via_image_from (with and without PSF) on a 2x3 image: symbolic image, sky level, PSF, seed (every integer "
              "0 <= k < 2^32) and two symbolic prior generator states",
-    "thorough": "Part A additionally all 3x3 masks for the dataset/mapper/inversion constructors.  Part B with the full operation lists "
-                "(up to 33 ops per level), more masks (3x3 'L', 4x3 mixed, 2x3 diagonal, 4x4 symmetric masks, 5x5 frames with 9 and 6 "
-                "pixels for both inversion formalisms at k<=2), Visibilities with 3 values, k<=3 on the Visibilities level, all 511 "
-                "3x3 masks at k<=1 on the Mask2D level, signal_to_noise_map histories of length 2.  Part C also 3x3 images",
+    "thorough": "Part A as quick.  Part B with the full operation lists (up to 33 ops per level), more masks (3x3 'L', 2x3 diagonal, "
+                "5x5 frames with 9 / 6 pixels for the mapping / w-tilde formalism, both at k<=2), Visibilities with 3 values, k<=3 on "
+                "the Visibilities level, all 63 masks of 2x3 at k<=1 on the Mask2D level, signal_to_noise_map histories of length 2.  "
+                "Part C also 3x3 images",
 }
 OUTSIDE = [
     "histories longer than the stated k (bounded model checking of the history quantifier, no induction)",
@@ -158,7 +158,6 @@ def _pos(mask):
 class SymComplex:
     __slots__ = ("re", "im")
     __hash__ = None
-    __array_priority__ = 1000
 
     def __init__(self, re, im):
         self.re, self.im = re, im
@@ -284,6 +283,20 @@ def POST_INSTALL():
         return np.imag(u)
 
     F.real, F.imag = real, imag
+
+    def mean(self, a, axis=None, where=None, **kw):
+        """np.mean(x, axis, where=) of an object array (binned_across_rows / columns): sum of the selected entries / their number"""
+        u = hx.unwrap(a)
+        if isinstance(u, np.ndarray) and u.dtype == object:
+            if not shim.has_sym(u):
+                return np.mean(u.astype(float), axis=axis, **({} if where is None else {"where": where}), **kw)
+            w = np.ones(u.shape, dtype=bool) if where is None else np.broadcast_to(np.asarray(hx.unwrap(where), dtype=bool), u.shape)
+            cnt = w.sum(axis=axis)
+            tot = (u * w).sum(axis=axis)
+            return tot / cnt
+        return np.mean(u, axis=axis, **({} if where is None else {"where": where}), **kw)
+
+    F.mean = mean
 
     # boolean-mask indexing with a symbolic condition (e.g. `y_diff[y_diff != 0]` in Grid2D.is_uniform): numpy cannot
     # index with an object array of SymBool, so the condition is concretised by forking before the REAL method runs.
@@ -574,10 +587,11 @@ def _structure(x):
 def _run_op(op, G):
     try:
         op[2](G)
+        return "ok"
     except (V.Unsupported, V.NonFinite):
         raise
-    except Exception:  # noqa - a query that raises is a query without a result; its side effects (if any) stay
-        pass
+    except Exception as e:  # noqa - a query that raises is a query without a result; its side effects (if any) stay
+        return type(e).__name__
 
 
 def _observe(ob, G):
@@ -592,8 +606,7 @@ def body_hist(inp, level, **kw):
     hist = [int(i) for i in inp["hist"]]
     ob = obs[int(inp["obs"])]
     G = build()
-    for i in hist:
-        _run_op(ops[i], G)
+    outcome = [_run_op(ops[i], G) for i in hist]
     a, spec = _observe(ob, G)
     if spec is None:
         G2 = build()
@@ -603,7 +616,10 @@ def body_hist(inp, level, **kw):
         e, _ = _observe(ob, G2)
     else:
         e = spec
-    return {ob[0]: a}, {ob[0]: e}
+    # harness sanity (never a verdict by itself): which operations of the history raised - the per-path native
+    # cross-validation compares this string too, so an operation that only fails on proxies cannot hide as a no-op
+    oc = "|".join(outcome)
+    return {ob[0]: a, "history outcome": oc}, {ob[0]: e, "history outcome": oc}
 
 
 def _choose(ctx, name, n, fixed=None):
@@ -614,7 +630,7 @@ def _choose(ctx, name, n, fixed=None):
     return ctx.concretize_int(i.t)
 
 
-def _hist_case(ctx, level, inputs, kw, k, op0=None, tol=None, validate_every=97):
+def _hist_case(ctx, level, inputs, kw, k, op0=None, tol=None, validate_every=13):
     """fork over the history (k operation indices) and the observation index - symbolic integers decided by the explorer"""
     _, ops, obs = LEVELS[level](inputs, **kw)
     if isinstance(op0, str):
@@ -698,28 +714,34 @@ def level_vis(inp, n, full=False):
 LEVELS["vis"] = level_vis
 
 
-def _arith_or_slice(name):
-    return name.startswith("d=") and not name.endswith("copy()") and name not in ("d=x.native", "d=x.slim")
+def _carries_dict(name):
+    """derivations implemented with copy()/with_new_array (the instance __dict__, cached values included, travels along)"""
+    tail = name[2:]
+    return any(t in tail for t in ("*c", "c*", "+x", "-w", "-off", "-x", "/c", "[", "invert()", "flipped", "abs(", "in_radians"))
 
 
 def _stale_cache_region(attr):
-    """a cached quantity `attr` was read on an object and a later derivation by arithmetic / slicing carried the cache
-    into the derived object, whose own `attr` is then observed"""
+    """a cached quantity `attr` sits in the __dict__ of an object when another object is derived from it by arithmetic /
+    slicing / invert(); the derived object carries the value although its contents differ, and its `attr` is observed"""
     def pred(names, obs_name, ops, kw):
         if obs_name != "d." + attr:
             return False
-        seen_x = seen_d = False     # cache present on x / on the current d
+        x_has = d_has = d_stale = False
         for nm in names:
             if nm == "x." + attr:
-                seen_x = True
+                x_has = True
             elif nm == "d." + attr:
-                seen_d = True
-            elif nm.startswith("d=x") or nm.startswith("d=c*x") or nm.startswith("d=-x"):
-                stale = seen_x and _arith_or_slice(nm)
-                seen_d = stale
-            elif nm.startswith("d=d"):
-                seen_d = seen_d and _arith_or_slice(nm)
-        return seen_d
+                if not d_has:
+                    d_has, d_stale = True, False          # computed from d's own contents
+            elif nm.startswith("d="):
+                src_has, src_stale = (x_has, False) if not nm.startswith("d=d") else (d_has, d_stale)
+                if nm.endswith("copy()"):
+                    d_has, d_stale = src_has, src_stale
+                elif _carries_dict(nm):
+                    d_has, d_stale = src_has, src_has
+                else:                                      # built by a constructor: no cache
+                    d_has, d_stale = False, False
+        return d_stale
     return pred
 
 
@@ -889,21 +911,22 @@ def level_grid(inp, mask_id, sn, full=False):
 
 
 def _grid_rewrap_region(names, obs_name, kw):
-    """same in-place masking, seen as a read changing its own object: a NATIVE-stored grid whose masked entries are
-    non-zero (after `x - off`) is re-wrapped by .native / .slim (Grid2D(values=self, mask)), which zeroes those entries
-    of the object itself"""
-    if not kw.get("sn") or not obs_name.startswith("d"):
+    """same in-place masking, seen as a read changing other quantities: a NATIVE-stored grid whose masked entries are
+    non-zero (after `x - off`, or `x.flipped`, which is a reversed VIEW of x's buffer - itself the caller's array) is
+    re-wrapped by .native / .slim (Grid2D(values=self, mask)); the constructor zeroes those entries in place: in d
+    itself and, through the view, in x and in the caller's array"""
+    if not kw.get("sn"):
         return False
-    dirty = False
+    dirty = None
     for nm in names:
-        if nm == "d=x-off":
-            dirty = True
+        if nm in ("d=x-off", "d=x.flipped"):
+            dirty = nm
         elif nm.startswith("d=x") or nm == "d=d.native":
             if dirty and nm == "d=d.native":
-                return True
-            dirty = False
+                return obs_name.startswith("d") or dirty == "d=x.flipped"
+            dirty = None
         elif nm in ("d.native", "d.slim") and dirty:
-            return True
+            return obs_name.startswith("d") or dirty == "d=x.flipped"
     return False
 
 
@@ -1127,6 +1150,14 @@ def _install_linalg_stub():
     for mod in (inversion_util, abstract):
         if not isinstance(mod.np, _NPWithLinalg):
             mod.np = _NPWithLinalg(mod.np)
+    if not getattr(abstract.csc_matrix, "_c11", False):
+        real_csc = abstract.csc_matrix
+
+        def csc(a, *args, **kw):          # scipy.sparse boundary: all-concrete object arrays enter as float64
+            return real_csc(shim.normalise(a), *args, **kw)
+
+        csc._c11 = True
+        abstract.csc_matrix = csc
 
 
 def level_inversion(inp, mask_id, w_tilde, full=False):
@@ -1523,8 +1554,8 @@ def cases(tier):
     for H in range(1, 4):
         for W in range(1, 4):
             out.append(("case_ctor_struct", {"H": H, "W": W}, {"split": 3 if H * W >= 9 else 0}))
-            if H * W >= 2 and (H * W <= 6 or not q):
-                out.append(("case_ctor_graph", {"H": H, "W": W}, {"split": 4 if H * W >= 9 else (2 if H * W >= 6 else 0)}))
+            if 2 <= H * W <= 6:
+                out.append(("case_ctor_graph", {"H": H, "W": W}, {"split": 2 if H * W >= 6 else 0}))
     # Part B
     if q:
         out += _hist_cases("vis", {"n": 2}, 2)
@@ -1539,18 +1570,16 @@ def cases(tier):
     else:
         out += _hist_cases("vis", {"n": 3, "full": True}, 2)
         out += _hist_cases("vis", {"n": 2}, 3)
-        for cls, sn, mid in (("Array2D", 0, "3x3_plus"), ("Array2D", 1, "3x3_L"), ("Array2D", 0, "4x3_mixed"), ("Kernel2D", 0, "3x3_plus"),
-                             ("Kernel2D", 1, "3x3_all"), ("Kernel2D", 0, "3x3_all")):
+        for cls, sn, mid in (("Array2D", 0, "3x3_plus"), ("Array2D", 1, "3x3_L"), ("Kernel2D", 0, "3x3_all"), ("Kernel2D", 1, "3x3_plus")):
             out += _hist_cases("array", {"mask_id": mid, "cls": cls, "sn": sn, "full": True}, 2)
         for sn, mid, full in ((0, "2x2_diag", True), (1, "2x2_diag", True), (0, "2x3_diag", False)):
             out += _hist_cases("grid", {"mask_id": mid, "sn": sn, "full": full}, 2)
         out += _hist_cases("mask", {"H": 3, "W": 3, "family": "sym4", "full": True}, 2)
-        out += _hist_cases("mask", {"H": 4, "W": 4, "family": "sym4"}, 2)
-        out += _hist_cases("mask", {"H": 3, "W": 3, "family": "all"}, 1)
+        out += _hist_cases("mask", {"H": 2, "W": 3, "family": "all"}, 1)
         out += _hist_cases("imaging", {"mask_id": "4x4_inner", "full": True}, 2)
         out += _hist_cases("imaging", {"mask_id": "5x5_inner_L"}, 2)
-        for wt, mid in ((0, "5x5_inner"), (1, "5x5_inner"), (0, "5x5_inner_L"), (1, "5x5_inner_L")):
-            out += _hist_cases("inversion", {"mask_id": mid, "w_tilde": wt, "full": True}, 2)
+        out += _hist_cases("inversion", {"mask_id": "5x5_inner", "w_tilde": 0, "full": True}, 2)
+        out += _hist_cases("inversion", {"mask_id": "5x5_inner_L", "w_tilde": 1, "full": True}, 2)
     out.append(("case_hist_imaging", {"mask_id": "4x4_inner", "k": 1, "snr": True, "op0": "x.signal_to_noise_map"}))
     if not q:
         out.append(("case_hist_imaging", {"mask_id": "4x4_inner", "k": 2, "snr": True, "op0": "d=x.apply_mask(m2)"}))
